@@ -1,20 +1,29 @@
-"""C11 - every executed step is accounted for; lock, hook and report follow the run (shares the end-to-end runs of C04)."""
+"""C11 - every executed step is accounted for; lock, hook and report follow the run (shares the end-to-end runs of C04);
+plus the lock functions alone, and the lane parallel-resume (the in-flight record of a parallel step below the resume point)."""
 import json
-import common, orch_env, orch_e2e, c04
+from concurrent.futures import ThreadPoolExecutor
+import common, orch_env, orch_e2e, c04, c03
 
-TRANSLATORS = c04.TRANSLATORS
-TRUSTED = c04.TRUSTED + ['log content is recognised by the probe\'s "output of <name>" line; mail = invocations of the sendmail stand-in; the lock is sampled after every completion']
+TRANSLATORS = c04.TRANSLATORS + ['t_step', 't_interp']      # Properties_C11.v also imports gen/Gen_Step.v (record writes = C01 writes)
+TRUSTED = c04.TRUSTED + ['log content is recognised by the probe\'s "output of <name>" line; mail = invocations of the sendmail stand-in; the lock is sampled after every completion',
+                         'ASSUMED for the duration clause: the clock read by date(1) does not step back while a step runs (C11_duration_nonneg_partial / _refuted); '
+                         'the harness compares every recorded duration with the time the probe really ran by its own clock']
+
+SIG_PAR_RESUME = 'inflight-parallel-record-left-after-resume'
 
 
 def run(ctx, n=None):
     res = common.Result()
-    res.rule = c04.RULE + '; accounting oracle: records, logs, hook calls (sequence compared with the model), lock during/after, second invocation, report and mail; plus lock_acquire / lock_release alone on related names'
+    res.rule = c04.RULE + ('; accounting oracle: records, logs, hook calls (sequence compared with the model), durations against the real run time, lock during/after, '
+                           'second invocation (refused without touching the first, whatever directory it names; nothing mailed or hooked by the refused one), report and '
+                           'mail; plus lock_acquire / lock_release alone on related names; plus the lane parallel-resume')
     n = n or ctx.budget(150, 2500)
     corpus = c04.load_corpus('C11')
     cases = [c for c in corpus if 'steps' in c] + [orch_e2e.gen_case(ctx.rng) for _ in range(n)]
     res.samples = cases[:2]
     c04.evaluate(ctx, cases, res, True)
     lock_lane(ctx, res, [c for c in corpus if 'lock_unit' in c] + [orch_e2e.gen_lock_case(ctx.rng) for _ in range(ctx.budget(80, 1500))])
+    parallel_resume_lane(ctx, res)
     res.traces_validated = res.evaluations
     return res
 
@@ -37,6 +46,31 @@ def lock_lane(ctx, res, cases):
                                             'lock_acquire' if c['op'] == 'acq' else 'lock_release', c['lock'], c['b'], m, im)})
 
 
+def parallel_resume_lane(ctx, res):
+    """"no record is left in the in-flight state unless the invocation was killed" - for RESUMED invocations of parallel
+    configurations (C11's quantifier).  p1, p2 parallel, c synchronous, ncpu 2; p2 completes, the session is killed with p1 in
+    flight, `canvas -r`.  The resumed invocation is NOT killed; when it has ended normally no record may say -1.
+    (C03's side of the same run - the resume point - is C03_parallel_resume_skips_inflight / c03.part_c.)"""
+    impl = ctx.build_impl()
+    ob = c03.parallel_boundary_case(ctx, impl, 0)
+    if ob.get('error'):
+        res.tie_errors.append('parallel-resume lane: ' + ob['error'])
+        return
+    res.evaluations += 1
+    res.count('lane parallel-resume')
+    case = {'lane': 'parallel-resume', 'variant': 0}
+    left = [r for r in (ob.get('rows_after') or []) if r['exit'] == -1]
+    if ob.get('rc') == 0 and left:
+        # pinned by the case (in-flight parallel step BELOW a completed one when the first invocation was killed) and by the
+        # observation (the resumed invocation ended with status 0, the record left in flight is that very step, which it never ran)
+        narrow = all(r['name'] == 'p1' for r in left) and 'p1' not in ob['executed'] and ob['resumed_at'] == 3
+        res.oracle_failures.append({'case': case, 'signature': SIG_PAR_RESUME if narrow else 'record-left-in-flight',
+                                    'what': 'killed with %s; canvas -r resumed at %s, executed %s, ended with status %s and left %s' % (
+                                        ob['rows'], ob['resumed_at'], ob['executed'], ob['rc'], left)})
+    elif ob.get('rc') != 0:
+        res.oracle_failures.append({'case': case, 'signature': 'resumed-invocation-failed', 'what': json.dumps(ob)[:600]})
+
+
 def extended_search(ctx, res, proof):
     return run(ctx, n=300)
 
@@ -46,6 +80,8 @@ def replay(ctx, rep):
     res = common.Result()
     if 'lock_unit' in case:
         lock_lane(ctx, res, [case])
+    elif case.get('lane') == 'parallel-resume':
+        parallel_resume_lane(ctx, res)
     else:
         c04.evaluate(ctx, [case], res, True)
     print(json.dumps(case)); print(res.disagreements); print(res.oracle_failures)
